@@ -203,14 +203,14 @@ def nums_of(a):
 # ---------------------------------------------------------------- C17
 
 
-def stationary_run(tdgl, a, tmp):
-    """undriven run: no field, no currents, epsilon = 1"""
+def stationary_run(tdgl, a, tmp, dev=None):
+    """undriven run: no field, no currents, epsilon = 1 (on the cached harness device of `a`, or on the given Device object)"""
     a = dict(a, field=0.0, currents=None)
     if a.get("stable", True):
         # keep the explicit part of the scheme linearly stable for amplitude perturbations (so that what is observed is the
         # presence or absence of a spurious source, not its amplification): dt_max <= u S / lambda_max, S = sqrt(1 + gamma^2),
         # lambda_max <= 2 max_i sum_j w_ij / a_i (Gershgorin)
-        dev0 = make_device(tdgl, a)
+        dev0 = dev if dev is not None else make_device(tdgl, a)
         em = dev0.mesh.edge_mesh
         w = em.dual_edge_lengths / em.edge_lengths
         rows = np.zeros(len(dev0.mesh.sites))
@@ -224,7 +224,7 @@ def stationary_run(tdgl, a, tmp):
         a = dict(a, dt=dt, dt_max=dt * ratio, solve_time=a["solve_time"] * dt / dt0)
     cap = {}
     try:
-        ok, frames, dev, err = run_solver(tdgl, a, tmp, capture=cap)
+        ok, frames, dev, err = run_solver(tdgl, a, tmp, capture=cap, dev=dev)
     except RuntimeError as e:       # the solver gave up (retries / screening iterations exhausted) on the uniform state
         return {"cfg": {"adaptive": bool(a.get("adaptive", False)), "window": int(a.get("window", 3)), "driven": False,
                         "screening": bool(a.get("screening", False))},
@@ -359,19 +359,53 @@ def conservation_trace(dev, a, ok, frames, err):
     return tr
 
 
-def fresh_device(tdgl, kind="tee", points=48):
-    """A NEW Device object (never the cached harness/devices.py ones): it is re-meshed / transformed by the history runs."""
-    from tdgl.geometry import box
+def fresh_device(tdgl, kind="tee", points=48, xi=1.0, gamma=10.0):
+    """A NEW Device object (never the cached harness/devices.py ones): it is re-meshed / transformed by the history runs.
+    kind: 'film' (no terminals), 'ring' (no terminals, a hole), 'bar', 'tee', 'cross'."""
+    from tdgl.geometry import box, circle
 
-    layer = tdgl.Layer(coherence_length=1.0, london_lambda=2.0, thickness=0.1, gamma=10.0)
+    layer = tdgl.Layer(coherence_length=xi, london_lambda=2.0, thickness=0.1, gamma=gamma)
     W, H = 5.0, 3.0
     film = tdgl.Polygon("film", points=box(W, H, points=points))
+    if kind in ("film", "ring"):
+        holes = [tdgl.Polygon("hole", points=circle(0.6, points=16, center=(0.2, 0.1)))] if kind == "ring" else []
+        return tdgl.Device(kind, layer=layer, film=film, holes=holes, terminals=[], probe_points=None, length_units="um")
     terms = [tdgl.Polygon("source", points=box(0.1, H, center=(-W / 2, 0))), tdgl.Polygon("drain", points=box(0.1, H, center=(W / 2, 0)))]
     if kind in ("tee", "cross"):
         terms.append(tdgl.Polygon("top", points=box(1.5, 0.1, center=(0, H / 2))))
     if kind == "cross":
         terms.append(tdgl.Polygon("bottom", points=box(1.5, 0.1, center=(0.3, -H / 2))))
     return tdgl.Device(kind, layer=layer, film=film, holes=[], terminals=terms, probe_points=[(-1.5, 0.0), (1.5, 0.0)], length_units="um")
+
+
+def stationary_history(tdgl, a, tmp):
+    """State that could leak between solver objects of ONE process: a solver is first constructed (and run for a few steps) on mesh
+    A, then the observed undriven run is made on a TWIN mesh B that has the same triangulation (edge list) but different geometry:
+    twin = 'smooth' (make_mesh(smooth=0) vs make_mesh(smooth=N)) or 'xi' (the same polygons with coherence_length 1 and 2).
+    order = 'AB' observes B after A, 'BA' observes A after B.  Returns the trace of the observed run (None if the two meshes do
+    not share their edge list, so that nothing is claimed)."""
+    kind, mel = a.get("dev", "film"), a.get("mel", 0.8)
+    dA = fresh_device(tdgl, kind, gamma=a.get("gamma", 10.0))
+    dA.make_mesh(max_edge_length=mel, smooth=0)
+    if a["twin"] == "smooth":
+        dB = fresh_device(tdgl, kind, gamma=a.get("gamma", 10.0))
+        dB.make_mesh(max_edge_length=mel, smooth=a.get("smooth", 40))
+    elif a["twin"] == "xi":
+        dB = fresh_device(tdgl, kind, xi=2.0, gamma=a.get("gamma", 10.0))
+        dB.make_mesh(max_edge_length=mel, smooth=0)
+    else:
+        raise ValueError(a["twin"])
+    same_edges = bool(np.array_equal(dA.mesh.edge_mesh.edges, dB.mesh.edge_mesh.edges))
+    same_geometry = bool(dA.mesh.sites.shape == dB.mesh.sites.shape and np.array_equal(dA.mesh.sites, dB.mesh.sites))
+    if not same_edges or same_geometry:
+        return {"skipped": True, "same_edges": same_edges, "same_geometry": same_geometry, "args": a}
+    first, second = (dA, dB) if a.get("order", "AB") == "AB" else (dB, dA)
+    warm = dict(a, solve_time=a.get("warm_time", 0.05), screening=a.get("warm_screening", False), adaptive=False)
+    w = stationary_run(tdgl, warm, tmp, dev=first)
+    t = stationary_run(tdgl, a, tmp, dev=second)
+    t["skipped"] = False
+    t["warm_up_run_worst"] = w["worst"]
+    return t
 
 
 def history_run(tdgl, a, tmp):
